@@ -195,6 +195,33 @@ func runSniff(cfg *hx.RunCfg) error {
 		_, _, _, e := netpkg.CheckAndEnableTLSServerConnWithTimeout(srv, tlsCfg, force, time.Second)
 		srv.Close()
 		cf.Cases = append(cf.Cases, fmt.Sprintf("CSniffEof %s %s", hx.Bool(force), hx.Bool(e != nil)))
+		// peer silent past the wait of the sniff, then speaking plain frp
+		{
+			srv, cli := net.Pipe()
+			o, _, _, e := netpkg.CheckAndEnableTLSServerConnWithTimeout(srv, tlsCfg, force, 150*time.Millisecond)
+			delivered := false
+			if e == nil && o != nil {
+				ts := time.Now().Unix()
+				late := msgBytes(&msg.Login{Version: "0.61.0", PrivilegeKey: util.GetAuthKey(hx.DefaultToken, ts), Timestamp: ts})
+				go func() {
+					_ = cli.SetWriteDeadline(time.Now().Add(time.Second))
+					_, _ = cli.Write(late)
+				}()
+				_ = o.SetReadDeadline(time.Now().Add(time.Second))
+				if m, rerr := msg.ReadMsg(o); rerr == nil {
+					_, delivered = m.(*msg.Login)
+				}
+			}
+			srv.Close()
+			cli.Close()
+			cf.Cases = append(cf.Cases, fmt.Sprintf("CSniffSilent %s %s %s", hx.Bool(force), hx.Bool(e != nil), hx.Bool(delivered)))
+			dist[fmt.Sprintf("fn silent force=%v err=%v delivered=%v", force, e != nil, delivered)]++
+			if force && delivered {
+				implFail = append(implFail, map[string]string{"key": "forced-sniff-passes-silent-peer",
+					"what": "with tlsOnly=true the first-byte check returned a usable non-TLS connection for a peer that stayed silent past its wait; the peer's later clear-text Login was read from it",
+					"case": "CheckAndEnableTLSServerConnWithTimeout(conn, cfg, tlsOnly=true, 150ms); peer silent for 150 ms, then a plain Login frame"})
+			}
+		}
 	}
 
 	// ---- system level: a running frps, forcing and not forcing ----
@@ -322,7 +349,7 @@ func runSniff(cfg *hx.RunCfg) error {
 		return err
 	}
 	cfg.St["cases"] = len(cf.Cases)
-	cfg.St["distinct_nontrivial"] = len(cf.Cases) - 2
+	cfg.St["distinct_nontrivial"] = len(cf.Cases) - 4
 	cfg.St["samples"] = []string{cf.Cases[0x16], cf.Cases[0x17], cf.Cases[256+1+int('o')], cf.Cases[len(cf.Cases)-512+int('o')], cf.Cases[len(cf.Cases)-256+int('o')]}
 	cfg.St["distribution"] = dist
 	cfg.St["impl_failures"] = implFail
